@@ -11,6 +11,7 @@ class CallGraph:
     def __init__(self, prog):
         self.prog = prog
         self.edges = {}
+        self.wild_edges = {}
         self.ext_calls = {}
         self.edge_why = {}
         # trait impl index: (adt id) -> list of impl dicts ; trait path -> list of impls
@@ -20,12 +21,18 @@ class CallGraph:
             if imp.get("self_adt"):
                 self.impls_by_adt.setdefault(imp["self_adt"], []).append(imp)
             self.impls_by_trait.setdefault(imp["trait"], []).append(imp)
+        self.impl_by_id = {imp["id"]: imp for imp in prog.impls}
         self.static_init = {}
         for fn in prog.fns.values():
             if fn.kind in ("static", "const", "assocconst"):
                 self.static_init[fn.path] = fn.id
         for fn in prog.fns.values():
             self._build(fn)
+
+    def _add_wild(self, f, target, why):
+        if target in self.prog.fns:
+            self.wild_edges.setdefault(f, set()).add(target)
+            self.edge_why.setdefault((f, target), why)
 
     def _add(self, f, target, why):
         if target in self.prog.fns:
@@ -37,6 +44,26 @@ class CallGraph:
 
     def _bounds_edges(self, fid, c, why):
         prog = self.prog
+        if c.get("bprecise"):
+            # resolved through the trait solver by the driver
+            for iid in c.get("bimpls", []):
+                imp = self.impl_by_id.get(iid)
+                if imp:
+                    for m in self._impl_methods(imp):
+                        self._add(fid, m, why + " bound impl " + imp["trait"])
+            for x in c.get("bcl", []):
+                self._add(fid, x, why + " closure bound")
+            for t in c.get("bdyn", []):
+                for imp in self.impls_by_trait.get(t, []):
+                    for m in self._impl_methods(imp):
+                        self._add(fid, m, why + " dyn bound " + t)
+            # bounds on the caller's own type parameters: the impls are charged to the (transitively) outermost
+            # concrete instantiation site, whose bounds the driver resolved; kept separately for root functions
+            for t in c.get("bwild", []):
+                for imp in self.impls_by_trait.get(t, []):
+                    for m in self._impl_methods(imp):
+                        self._add_wild(fid, m, why + " wildcard bound " + t)
+            return
         for b in c.get("bounds", []):
             traits = set(b["traits"])
             direct = b.get("direct")
@@ -74,6 +101,7 @@ class CallGraph:
             tid = k.get("rid") or k["id"]
             self._add(fid, tid, why + " fn item")
             self._add(fid, k["id"], why + " fn item")
+            self._bounds_edges(fid, k, why + " fn item")
             for x in k.get("gcl", []) + k.get("gfn", []):
                 self._add(fid, x, why + " generic arg")
         if "closure" in k:
@@ -119,8 +147,12 @@ class CallGraph:
                     if "Unsize" in rv["kind"] or "dyn" in rv["ty"]:
                         for a in rv.get("src_adts", []):
                             for imp in self.impls_by_adt.get(a, []):
-                                for m in self._impl_methods(imp):
-                                    self._add(fid, m, "unsize to dyn")
+                                # only the traits named in the target dyn type (and their supertraits, which a
+                                # vtable also carries: approximated by Debug/Display/Error family)
+                                tshort = imp["trait"].split("<")[0]
+                                if tshort in rv["ty"] or ("Error" in rv["ty"] and tshort in ("std::fmt::Debug", "std::fmt::Display", "std::error::Error")):
+                                    for m in self._impl_methods(imp):
+                                        self._add(fid, m, "unsize to dyn")
                             if a in prog.fns:
                                 self._add(fid, a, "closure to dyn")
             t = blk["term"]
@@ -153,7 +185,10 @@ class CallGraph:
                         for imp in self.impls_by_trait.get(tr, []):
                             for m in imp["methods"]:
                                 if m["name"] == name:
-                                    self._add(fid, m["id"], "unresolved trait call")
+                                    if rk == "unresolved":
+                                        self._add_wild(fid, m["id"], "unresolved trait call on a type parameter")
+                                    else:
+                                        self._add(fid, m["id"], "virtual/unresolved trait call")
             elif k == "drop":
                 for a in t.get("padts", []):
                     for imp in self.impls_by_adt.get(a, []):
@@ -163,8 +198,9 @@ class CallGraph:
             elif k == "switch":
                 self._operand_edges(fid, t["d"], "switch")
 
-    def reachable(self, roots):
+    def reachable(self, roots, wild_roots=True):
         seen = {}
+        rootset = set(roots)
         st = [(r, None) for r in roots]
         while st:
             f, par = st.pop()
@@ -174,6 +210,10 @@ class CallGraph:
             for t in sorted(self.edges.get(f, ())):
                 if t not in seen:
                     st.append((t, f))
+            if wild_roots and (f in rootset or self.prog.fns[f].root in rootset):
+                for t in sorted(self.wild_edges.get(f, ())):
+                    if t not in seen:
+                        st.append((t, f))
         return seen
 
     def chain(self, seen, f):
@@ -182,6 +222,13 @@ class CallGraph:
             out.append(f)
             f = seen.get(f)
         out.reverse()
+        return out
+
+    def why_chain(self, seen, f):
+        ch = self.chain(seen, f)
+        out = []
+        for a, b in zip(ch, ch[1:]):
+            out.append("%s --[%s]--> %s" % (self.prog.fns[a].path, self.edge_why.get((a, b)), self.prog.fns[b].path))
         return out
 
     def pretty_chain(self, seen, f, maxlen=12):
